@@ -467,6 +467,12 @@ class CallMixin:
         if not (cls.__module__ or '').startswith('mesonbuild'):
             if not any(is_sym(a) or contains_sym(a) for a in list(args) + list(kwargs.values())):
                 return cls(*args, **kwargs)
+            if cls.__name__ in (getattr(self.cur_contract, 'opaque_classes', None) or ()):
+                zs = self.zs
+                sorts = [a.sort() if z3.is_expr(a) else zs.zsort(api.Obj) for a in args]
+                f_ = self.ufun(f'new_{cls.__name__}_{len(args)}', *sorts, zs.zsort(api.Obj))
+                self.assumptions.add(f'{cls.__name__} objects are opaque: construction and methods are uninterpreted functions')
+                return VObj(f_(*[a if z3.is_expr(a) else self.unwrap_term(a) for a in args]), cls)
             raise Unsupported(f'construction of {cls.__name__} with symbolic arguments')
         if issubclass(cls, tuple) and hasattr(cls, '_fields'):
             # typing.NamedTuple: an immutable record of its fields
